@@ -6,6 +6,7 @@ import (
 	"fmt"
 	"go/ast"
 	"go/constant"
+	"go/token"
 	"go/types"
 	"strings"
 )
@@ -192,8 +193,10 @@ func checkArrayFragments(w *World, r *Result) {
 		{"jsonb_array_length(data) = 0 THEN RETURN TRUE", "slice", "empty-array acceptance"},
 		{"'null' THEN RETURN TRUE", "slice", "null acceptance"},
 	}
+	// classOf evaluates the conjunction of the Len tests on the path to n over a fixed array (Len 3), an empty fixed
+	// array (Len 0) and a slice (Len -1): "fixed", "slice", "always" (no test), "dead" (no array reaches n), "other"
 	classOf := func(n ast.Node) string {
-		class := "always"
+		onFixed, onZero, onSlice, any := true, true, true, false
 		for _, c := range pathConds(fi.Decl, n) {
 			if c.expr == nil || !strings.Contains(es(c.expr), ".Len") {
 				continue
@@ -206,35 +209,51 @@ func checkArrayFragments(w *World, r *Result) {
 			if !isK {
 				continue
 			}
-			// evaluate on a fixed length (3) and on a slice (-1)
-			onFixed := evalCmp(be.Op, 3, k) == c.truth
-			onZero := evalCmp(be.Op, 0, k) == c.truth
-			onSlice := evalCmp(be.Op, -1, k) == c.truth
-			switch {
-			case onFixed && onZero && !onSlice:
-				class = "fixed"
-			case !onFixed && !onZero && onSlice:
-				class = "slice"
-			default:
-				class = "other"
-			}
+			any = true
+			onFixed = onFixed && evalCmp(be.Op, 3, k) == c.truth
+			onZero = onZero && evalCmp(be.Op, 0, k) == c.truth
+			onSlice = onSlice && evalCmp(be.Op, -1, k) == c.truth
 		}
-		return class
+		switch {
+		case !any:
+			return "always"
+		case onFixed && onZero && !onSlice:
+			return "fixed"
+		case !onFixed && !onZero && onSlice:
+			return "slice"
+		case !onFixed && !onZero && !onSlice:
+			return "dead"
+		}
+		return "other"
 	}
 	for _, f := range frags {
 		var sites []ast.Node
 		ast.Inspect(fi.Decl.Body, func(x ast.Node) bool {
-			lit, ok := x.(*ast.BasicLit)
-			if !ok {
-				return true
+			// a declaration of a named constant is not a use: its uses are
+			if gd, ok := x.(*ast.GenDecl); ok && gd.Tok == token.CONST {
+				return false
 			}
-			tv := info.Types[lit]
-			if tv.Value == nil || tv.Value.Kind() != constant.String || !strings.Contains(constant.StringVal(tv.Value), f.marker) {
-				return true
+			switch v := x.(type) {
+			case *ast.BasicLit:
+				tv := info.Types[v]
+				if tv.Value != nil && tv.Value.Kind() == constant.String && strings.Contains(constant.StringVal(tv.Value), f.marker) {
+					sites = append(sites, v)
+				}
+			case *ast.Ident:
+				if c, ok := info.Uses[v].(*types.Const); ok && c.Val().Kind() == constant.String && strings.Contains(constant.StringVal(c.Val()), f.marker) {
+					sites = append(sites, v)
+				}
 			}
-			sites = append(sites, lit)
 			return true
 		})
+		// sites that no array reaches (a default clause after `Len >= 0` and `Len == -1`) say nothing
+		var live []ast.Node
+		for _, s := range sites {
+			if classOf(s) != "dead" {
+				live = append(live, s)
+			}
+		}
+		sites = live
 		if len(sites) == 0 {
 			r.bad("AGR-C04n", fi.Name, f.what, fnPos(w, fi), "the "+f.what+" fragment is no longer part of the array validator")
 			continue
